@@ -423,7 +423,21 @@ def oracle_cr(c):
             final = code
             break
     got = tbytes[:pos]
+    if c["stream"] == "cr-huge":
+        if codes != [1]:
+            out.append(("genuine-stream-rejected", "%s: code %s" % (c.get("note", ""), codes)))
+        return out
+    if c["stream"] == "cr-contract":
+        # the underlying reader broke the io.Reader contract: anything but a certified end-of-stream is acceptable
+        if 1 in codes:
+            out.append(("end-of-stream-reported-over-a-reader-that-broke-the-contract", c.get("note", "")))
+        return out
     if final == 0:
+        if c.get("note") == "early":
+            # the caller stopped before any verdict: it must not have been told end-of-stream (it was not)
+            if bytes(tbytes) != under[:len(tbytes)]:
+                out.append(("bytes-handed-on-differ-from-the-underlying-stream", "early stop"))
+            return out
         out.append(("stream-never-ended", "no error after %d reads" % len(codes)))
         return out
     if bytes(got) != under:
@@ -642,7 +656,8 @@ def run(ck):
     model_ok = all(built.get(x) for x in MODEL)
     if cases and model_ok:
         # a shard is one Coq file; its text is cut into literals short enough for Coq's stack
-        corr_cases = [c for c in cases if c["stream"] != "fs-peek"]     # megabyte contents: oracle only
+        # megabyte contents and contract-breaking readers: oracle only
+        corr_cases = [c for c in cases if c["stream"] not in ("fs-peek", "cr-contract", "cr-huge")]
         texts = [to_text(c) for c in corr_cases]
         parts = []
         cur, cur_n, cur_start = [], 0, 0
